@@ -1,5 +1,5 @@
 (* C03 -- the script table of the Linux Process queries and the closed (vm_compute) guard results,
-   lifted through the soundness theorems of Proofs.v; refutations with concrete fault schedules. *)
+   lifted through the soundness theorems of Proofs.v; refutations about the code before the repairs. *)
 From PV Require Import Base.Prelude C03.Model C03.Spec C03.Guard C03.Proofs C03.Run.
 Local Open Scope string_scope.
 Local Open Scope list_scope.
@@ -11,47 +11,27 @@ Definition backend_scripts : list prog :=
     i_net_connections 0; i_net_connections 1; i_net_connections 2;
     i_sys FSysPrio; i_sys FSysIoprio; i_sys FSysAffinity; i_rlimit;
     f_name; f_status; f_uids; f_cpu_times; f_memory_info ].
-Definition link_scripts : list prog := [ i_cwd ].
-Definition exe_scripts : list prog := [ i_exe; f_exe ].
-Definition linux_scripts : list prog := backend_scripts ++ link_scripts ++ exe_scripts ++ [ f_create_time; f_is_running ].
-(* queries that consult the OS on every call (f_create_time memoises, f_is_running answers False) *)
-Definition consulting_scripts : list prog := backend_scripts ++ link_scripts ++ exe_scripts ++ [ f_ppid ].
-(* as_dict() over every attribute that does not go through ppid() *)
-Definition as_dict_all : prog := as_dict (backend_scripts ++ link_scripts ++ exe_scripts ++ [ f_create_time; Skip ]).
-Definition as_dict_all_ppid : prog := as_dict (f_ppid :: backend_scripts ++ link_scripts ++ exe_scripts ++ [ f_create_time; Skip ]).
+(* queries that consult the OS on every call *)
+Definition consulting_scripts : list prog := backend_scripts ++ [ i_cwd; i_exe; f_exe; f_ppid ].
+(* ... plus create_time() (memoised after its first success) and is_running() (answers False once gone) *)
+Definition linux_scripts : list prog := consulting_scripts ++ [ f_create_time; f_is_running ].
+(* as_dict() over every attribute ([Skip] = pid) *)
+Definition as_dict_all : prog := as_dict (consulting_scripts ++ [ f_create_time; Skip ]).
+(* calls that also query other Process objects *)
+Definition tree_scripts : list prog := [ f_parent; f_parents; f_children ].
 
-Lemma live_table : forallb (well_guarded opt_race) (as_dict_all :: linux_scripts) = true.
-Proof. vm_compute. reflexivity. Qed.
-Lemma kthread_table : forallb (well_guarded opt_exe) (backend_scripts ++ link_scripts ++ [ f_create_time; f_is_running ]) = true.
-Proof. vm_compute. reflexivity. Qed.
-Lemma zombie_table : forallb (well_guarded opt_links) (backend_scripts ++ [ f_create_time; f_is_running ]) = true.
+Lemma methods_table : forallb (well_guarded opt_links) (as_dict_all :: linux_scripts) = true.
 Proof. vm_compute. reflexivity. Qed.
 Lemma sticky_table : forallb (gone_guarded opt_links) consulting_scripts = true.
 Proof. vm_compute. reflexivity. Qed.
-Lemma ppid_table : forallb (weakly_guarded opt_links) [ f_ppid ] = true /\ forallb (weakly_guarded opt_race) [ as_dict_all_ppid ] = true.
-Proof. split; vm_compute; reflexivity. Qed.
-Lemma tree_table : forallb (tree_guarded opt_race) [ f_parent; f_parents ] = true.
+Lemma tree_table : forallb (tree_guarded opt_links) tree_scripts = true.
 Proof. vm_compute. reflexivity. Qed.
 
-Theorem live_methods_sound : forall w, base_ok opt_race w -> forall p, In p (as_dict_all :: linux_scripts) ->
+Theorem linux_methods_sound : forall w, base_ok opt_links w -> forall p, In p (as_dict_all :: linux_scripts) ->
   forall s, s_cache s = false -> allowed (fst (run w p s)) (gone w (snd (run w p s))).
 Proof.
   intros w Hb p Hp s Hc.
-  exact (well_guarded_sound_w w opt_race Hb p (proj1 (forallb_forall _ _) live_table p Hp) s Hc).
-Qed.
-Theorem kthread_methods_sound : forall w, base_ok opt_exe w ->
-  forall p, In p (backend_scripts ++ link_scripts ++ [ f_create_time; f_is_running ]) ->
-  forall s, s_cache s = false -> allowed (fst (run w p s)) (gone w (snd (run w p s))).
-Proof.
-  intros w Hb p Hp s Hc.
-  exact (well_guarded_sound_w w opt_exe Hb p (proj1 (forallb_forall _ _) kthread_table p Hp) s Hc).
-Qed.
-Theorem zombie_methods_sound : forall w, base_ok opt_links w ->
-  forall p, In p (backend_scripts ++ [ f_create_time; f_is_running ]) ->
-  forall s, s_cache s = false -> allowed (fst (run w p s)) (gone w (snd (run w p s))).
-Proof.
-  intros w Hb p Hp s Hc.
-  exact (well_guarded_sound_w w opt_links Hb p (proj1 (forallb_forall _ _) zombie_table p Hp) s Hc).
+  exact (well_guarded_sound_w w opt_links Hb p (proj1 (forallb_forall _ _) methods_table p Hp) s Hc).
 Qed.
 Theorem gone_sticky : forall w, base_ok opt_links w -> forall p, In p consulting_scripts ->
   forall s, s_cache s = false -> gone w s = true -> fst (run w p s) = RExc (XNSP Self).
@@ -59,22 +39,14 @@ Proof.
   intros w Hb p Hp s Hc Hg.
   exact (gone_guarded_sound_w w opt_links Hb p (proj1 (forallb_forall _ _) sticky_table p Hp) s Hc Hg).
 Qed.
-Theorem ppid_partial : forall w, base_ok opt_links w ->
-  forall s, s_cache s = false -> allowed_weak (fst (run w f_ppid s)).
+Theorem tree_methods_sound : forall w, base_ok opt_links w -> forall p, In p tree_scripts ->
+  forall s, s_cache s = false -> allowed_tree (fst (run w p s)) (gone w (snd (run w p s))).
 Proof.
-  intros w Hb s Hc.
-  exact (weakly_guarded_sound_w w opt_links Hb f_ppid
-           (proj1 (forallb_forall _ _) (proj1 ppid_table) f_ppid (or_introl eq_refl)) s Hc).
-Qed.
-Theorem as_dict_ppid_partial : forall w, base_ok opt_race w ->
-  forall s, s_cache s = false -> allowed_weak (fst (run w as_dict_all_ppid s)).
-Proof.
-  intros w Hb s Hc.
-  exact (weakly_guarded_sound_w w opt_race Hb as_dict_all_ppid
-           (proj1 (forallb_forall _ _) (proj2 ppid_table) as_dict_all_ppid (or_introl eq_refl)) s Hc).
+  intros w Hb p Hp s Hc.
+  exact (tree_guarded_sound_w w opt_links Hb p (proj1 (forallb_forall _ _) tree_table p Hp) s Hc).
 Qed.
 
-(* ---- the harness's concrete worlds satisfy the hypotheses (so the theorems are not vacuous) *)
+(* ---- the harness's concrete worlds satisfy the hypothesis (so the theorems are not vacuous) *)
 Definition y0 : layout :=
   {| y_self := "4242"; y_parent := "1";
      y_fds := [("0", LOtherLink); ("3", LReg); ("4", LSock); ("5", LReg); ("6", LOtherLink)];
@@ -82,6 +54,7 @@ Definition y0 : layout :=
      y_children := ["5001"; "5002"]; y_zombies := ["5002"]; y_race_fd := "5"; y_race_task := "4243" |}.
 
 Ltac ifs := repeat match goal with |- context [if ?c then _ else _] => destruct c end.
+(* each base kind within its own (narrower) class of optional files ... *)
 Lemma base_ok_worlds : forall y v d ln gu,
   base_ok opt_none (mk_world y 0 v d ln gu) /\ base_ok opt_exe (mk_world y 1 v d ln gu) /\
   base_ok opt_links (mk_world y 2 v d ln gu) /\ base_ok opt_race (mk_world y 3 v d ln gu).
@@ -89,38 +62,42 @@ Proof.
   intros. repeat split; intros g [k x f] cur; unfold rwho; simpl;
     destruct x; simpl; try exact I; ifs; destruct f, k; simpl; ifs; reflexivity.
 Qed.
-Lemma base_ok_none_race : forall w, base_ok opt_none w -> base_ok opt_race w.
+(* ... hence all of them within opt_links, the class of the theorems *)
+Lemma base_ok_worlds_links : forall y kind v d ln gu, (kind <= 3)%nat -> base_ok opt_links (mk_world y kind v d ln gu).
 Proof.
-  intros w H g l cur. specialize (H g l cur). destruct (rwho w l cur); auto;
-    unfold opt_none in H; simpl in H; unfold ok_class, ok_self, ok_other in *;
-    destruct (opt_race l); auto;
-    match goal with |- context [match ?r with _ => _ end] => destruct r as [?|[]]; auto; discriminate end.
+  intros y kind v d ln gu Hk.
+  assert (kind = 0 \/ kind = 1 \/ kind = 2 \/ kind = 3)%nat as [-> | [-> | [-> | ->]]] by lia;
+    intros g [k x f] cur; unfold rwho; simpl;
+    destruct x; simpl; try exact I; ifs; destruct f, k; simpl; ifs; reflexivity.
 Qed.
 
-(* ---- refutations: the faithful scripts on concrete single-fault schedules *)
-(* kernel thread, the lexists probe of _readlink refused: exe() lets a bare FileNotFoundError out *)
-Theorem exe_kthread_refuted :
-  fst (run (mk_world y0 1 None [1%nat] true false) f_exe st0) = RExc XFnf.
-Proof. vm_compute. reflexivity. Qed.
-(* another pid's stat refused while ppid_map() walks the process list: bare PermissionError *)
-Theorem children_refuted :
-  fst (run (mk_world y0 0 None [5%nat] true false) f_children st0) = RExc XPerm.
-Proof. vm_compute. reflexivity. Qed.
-(* the identity re-check of is_running() refused: NoSuchProcess for a process that is there *)
-Theorem ppid_refuted :
-  let w := mk_world y0 0 None [0%nat] true false in
-  fst (run w f_ppid st0) = RExc (XNSP Self) /\ gone w (snd (run w f_ppid st0)) = false.
-Proof. vm_compute. split; reflexivity. Qed.
-(* outside the quantifier (two refusals): a zombie's cwd() then also lets FileNotFoundError out *)
-Theorem cwd_zombie_two_refusals_refuted :
-  fst (run (mk_world y0 2 None [1%nat; 2%nat] true false) i_cwd st0) = RExc XFnf.
-Proof. vm_compute. reflexivity. Qed.
-(* ... while a guarded method under the same kind of schedule is an instance of the theorem *)
 Example cmdline_example :
   let w := mk_world y0 2 (Some 1%nat) [0%nat] true false in
   allowed (fst (run w i_cmdline st0)) (gone w (snd (run w i_cmdline st0))).
 Proof.
-  intro w. apply zombie_methods_sound; auto.
-  - apply base_ok_worlds.
-  - unfold backend_scripts. simpl. auto.
+  intro w. apply linux_methods_sound; auto.
+  - apply base_ok_worlds_links. lia.
+  - unfold linux_scripts, consulting_scripts, backend_scripts. simpl. auto.
 Qed.
+
+(* ---- the defects that were repaired (commits 1c63e73, 4ee76b0, a4fac6f): the scripts of the code BEFORE
+        the repairs ([legacy_*] in Model.v) break the property on single-refusal schedules *)
+(* kernel thread, the lexists probe of _readlink refused: exe() let a bare FileNotFoundError out *)
+Theorem legacy_exe_kthread_refuted :
+  fst (run (mk_world y0 1 None [1%nat] true false) legacy_f_exe st0) = RExc XFnf.
+Proof. vm_compute. reflexivity. Qed.
+(* another pid's stat refused while ppid_map() walks the process list: bare PermissionError *)
+Theorem legacy_children_refuted :
+  fst (run (mk_world y0 0 None [5%nat] true false) legacy_f_children st0) = RExc XPerm.
+Proof. vm_compute. reflexivity. Qed.
+(* the identity re-check of is_running() refused: NoSuchProcess for a process that is there *)
+Theorem legacy_ppid_refuted :
+  let w := mk_world y0 0 None [0%nat] true false in
+  fst (run w legacy_f_ppid st0) = RExc (XNSP Self) /\ gone w (snd (run w legacy_f_ppid st0)) = false.
+Proof. vm_compute. split; reflexivity. Qed.
+(* ... and the same schedules on the current scripts are instances of the theorems *)
+Example repaired_schedules :
+  fst (run (mk_world y0 1 None [1%nat] true false) f_exe st0) = RExc (XAD Self) /\
+  fst (run (mk_world y0 0 None [5%nat] true false) f_children st0) = RVal /\
+  fst (run (mk_world y0 0 None [0%nat] true false) f_ppid st0) = RVal.
+Proof. vm_compute. repeat split; reflexivity. Qed.
